@@ -224,7 +224,11 @@ func (x *Exec) builtin(s *State, b *ssa.Builtin, cc *ssa.CallCommon, args []*Val
 			s.assume(sx(">=", r, "0"))
 			return &Val{T: resT, S: r}
 		}
-		return &Val{T: resT, S: x.sliceLen(s, v)}
+		ln := x.sliceLen(s, v)
+		if _, lit := isNumLit(ln); !lit {
+			s.assume(and(sx(">=", ln, "0"), sx("<", ln, pow2(63)))) // a length held by the program is an int (A-mem)
+		}
+		return &Val{T: resT, S: ln}
 	case "cap":
 		// capacity is not modelled: any value >= len
 		r := x.fresh(s, "cap", "Int")
